@@ -1,7 +1,7 @@
 """C06 A wrong key is always rejected and yields no plaintext."""
 from .common import combined
 LEVEL = 'other'
-RULES = ('S-GATE', 'S-CMP', 'R05.e', 'R06.a', 'R06.b', 'R12.a')
+RULES = ('S-GATE', 'S-CMP', 'R05.e', 'R06.a', 'R06.b', 'R06.c', 'R12.a')
 
 
 def run(prog, rec, tier):
